@@ -11,6 +11,7 @@
 import GriddleModel.Serde
 import GriddleModel.Props.C08
 import GriddleModel.Props.C01
+import GriddleModel.Props.C01Extend
 namespace Griddle.C16
 open Serde
 
@@ -125,5 +126,68 @@ theorem de_in_place (c : Cfg) (hR : 0 < c.R) (place : Map) (tokens : List Entry)
       refine (insertAll_spec c hR orcs tokens m1 hi1 hnd (fun e _ => habs1 e.k)).mono (fun m' hs => ⟨hs.1, fun k => ?_⟩)
       rw [hs.2 k, habs1 k]
       cases lookupIn tokens k <;> rfl
+
+/-- a stream is not a map: with keys repeated in it (and whatever the size hint says) inserting it is the reference
+    map's fold of `insert` — the last value of a key wins, the key is stored once -/
+theorem insertAll_fold (c : Cfg) (hR : 0 < c.R) (orcs : Nat → Orc) :
+    ∀ (tokens : List Entry) (m : Map), Inv c.R m →
+      OkOrCap (insertAll c m tokens orcs) (fun m' =>
+        Inv c.R m' ∧ ∀ k, absOf m' k = C01.specExtend (absOf m) tokens k) := by
+  intro tokens
+  induction tokens with
+  | nil => intro m h; simp only [insertAll, OkOrCap]; exact ⟨h, fun _ => rfl⟩
+  | cons e rest ih =>
+    intro m h
+    unfold insertAll
+    have hs := Map.insert_spec c hR m e (orcs rest.length) h
+    cases hr : Map.insert c m e (orcs rest.length) with
+    | error f => rw [hr] at hs; exact hs
+    | ok r =>
+      obtain ⟨m1, out⟩ := r
+      rw [hr] at hs
+      simp only [OkOrCap] at hs
+      obtain ⟨hi1, ha1, _⟩ := hs
+      dsimp only
+      have h2 := ih m1 hi1
+      cases hr2 : insertAll c m1 rest orcs with
+      | error f => rw [hr2] at h2; exact h2
+      | ok m2 =>
+        rw [hr2] at h2
+        simp only [OkOrCap] at h2 ⊢
+        refine ⟨h2.1, fun k => ?_⟩
+        rw [h2.2 k]
+        have hfun : absOf m1 = (match absOf m e.k with
+                                 | some _ => specUpd (absOf m) e.k e.v e.vid
+                                 | none => specIns (absOf m) e) := by
+          funext k'
+          rw [ha1 k']
+          cases absOf m e.k <;> rfl
+        rw [hfun]
+        rfl
+
+/-- **deserialising ANY stream** — repeated keys, honest / absent / lying hint —: the invariant, and the contents
+    of the reference map built by inserting the pairs in order -/
+theorem de_stream (c : Cfg) (hR : 0 < c.R) (tokens : List Entry) (hint : Option Nat) (orcs : Nat → Orc) :
+    OkOrCap (deserialize c tokens hint orcs) (fun m' =>
+      Inv c.R m' ∧ ∀ k, absOf m' k = C01.specExtend (fun _ => none) tokens k) := by
+  unfold deserialize Map.withCapacity
+  have hw := C01.inv_withCapacity c (cautious hint)
+  cases hr : Raw.withCapacity c (cautious hint) with
+  | error f => rw [hr] at hw; exact hw
+  | ok r =>
+    obtain ⟨m0, cost⟩ := r
+    rw [hr] at hw
+    simp only [OkOrCap] at hw
+    obtain ⟨hi0, he0, _⟩ := hw
+    dsimp only
+    have habs0 : absOf m0 = fun _ => none := by funext k; unfold absOf; rw [he0]; rfl
+    refine (insertAll_fold c hR orcs tokens m0 hi0).mono (fun m' hs => ⟨hs.1, fun k => ?_⟩)
+    rw [hs.2 k, habs0]
+
+/-- non-vacuity: the stream (1,10) (2,20) (1,11) with a hint of 3 gives two entries, key 1 with the LAST value -/
+example :
+    (match deserialize { R := 8 } [⟨1, 1, 10, 2⟩, ⟨2, 3, 20, 4⟩, ⟨1, 5, 11, 6⟩] (some 3) (fun _ => {}) with
+     | .ok m => (m.len, (m.find 1).map (fun p => p.2.v), (m.find 2).map (fun p => p.2.v))
+     | .error _ => (0, none, none)) = (2, some 11, some 20) := by decide
 
 end Griddle.C16
